@@ -8,11 +8,11 @@ QUAD-FAMILY   element_interface.create_quadrature: the polyset family handed to 
 
 from __future__ import annotations
 
-from ..absint import Interp, Node, Raised, _PyCall
+from ..absint import Interp, Node, PyNative, Raised, _PyCall
 from ..lnodes_model import load_classes
 import ast
 
-from ..model import AnalysisError
+from ..model import AnalysisError, call_name
 from ..registry import rule
 
 ET = "ffcx.ir.elementtables"
@@ -259,3 +259,159 @@ def math_argtype(repo, res):
                 res.fail(key, f"{fn} with argument types {[d.split('.')[1] for d in dts]} in a {sname} kernel is emitted as `{text}`; the "
                          f"{'complex' if want_kind == 'complex' else 'real'} function `{want}` is required"
                          + (": the real function converts the complex argument to its real part" if want_kind == "complex" else ""), m.line(h.node))
+
+
+class _Arr(PyNative):
+    """A minimal model of a numpy array: shape, size, flat, indexing, iteration and numpy's *printing* of sub-arrays
+    (8 significant digits), which is what makes `f"{values[0]}"` of a multi-axis array lossy."""
+
+    def __init__(self, data):
+        self.data = data
+
+    @property
+    def shape(self):
+        s, d = [], self.data
+        while isinstance(d, list):
+            s.append(len(d))
+            d = d[0] if d else None
+        return tuple(s)
+
+    @property
+    def size(self):
+        n = 1
+        for k in self.shape:
+            n *= k
+        return n
+
+    @property
+    def flat(self):
+        out = []
+
+        def rec(d):
+            if isinstance(d, list):
+                for x in d:
+                    rec(x)
+            else:
+                out.append(d)
+
+        rec(self.data)
+        return out
+
+    def __getitem__(self, i):
+        v = self.data[i]
+        return _Arr(v) if isinstance(v, list) else v
+
+    def __iter__(self):
+        return iter(_Arr(v) if isinstance(v, list) else v for v in self.data)
+
+    def __len__(self):
+        return len(self.data)
+
+    def __str__(self):
+        def rec(d):
+            if isinstance(d, list):
+                return "[" + " ".join(rec(x) for x in d) + "]"
+            return f"{d:.8g}" if isinstance(d, float) else str(d)
+
+        return rec(self.data)
+
+
+@rule(
+    "NUMBA-ARRAYDECL",
+    ["C16", "C18"],
+    "the numba formatter's ArrayDecl handler (with build_initializer_lists and _dtype_to_name), interpreted on sample "
+    "declarations - REAL / SCALAR / INT / BOOL symbols; no values, one value with a larger extent, one value in a four-axis "
+    "table, ordinary tables, nearly uniform tables - must emit text that parses as Python, names an existing NumPy dtype, and "
+    "whose numeric literals read back to exactly the declared values (np.full only for a genuinely single value)",
+    min_instances=9,
+)
+def numba_arraydecl(repo, res):
+    FM = "ffcx.codegeneration.numba.formatter"
+    m = repo.mod(FM)
+    cands = [f for f in m.funcs.values() if f.node.name == "_" and "ArrayDecl" in ast.unparse(f.node.args)]
+    if len(cands) != 1:
+        raise AnalysisError("numba formatter: ArrayDecl handler not found")
+    h = cands[0]
+    res.functions.add(h.key)
+    dn = m.func("Formatter._dtype_to_name")
+    samples = [
+        ("no values", "DataType.REAL", (3,), None),
+        ("zero fill of a temporary", "DataType.SCALAR", (4,), [0]),
+        ("single entry, four axes", "DataType.REAL", (1, 1, 1, 1), [[[[1 / 3]]]]),
+        ("weights", "DataType.REAL", (3,), [0.16666666666666666, 0.16666666666666666, 0.6666666666666667]),
+        ("nearly uniform weights", "DataType.REAL", (3,), [0.1666666, 0.1666667, 0.1666667]),
+        ("tiny cut-cell weights", "DataType.REAL", (3,), [1e-9, 3e-9, 2e-9]),
+        ("table, four axes", "DataType.REAL", (1, 1, 2, 2), [[[[0.1, 0.7000000000000001], [0.30000000000000004, 1e-17]]]]),
+        ("integer table", "DataType.INT", (2, 2), [[1, 2], [3, 0]]),
+        ("uniform table", "DataType.REAL", (2, 2), [[0.5, 0.5], [0.5, 0.5]]),
+    ]
+    valid_dtypes = {"float64", "float32", "complex128", "complex64", "int32", "int64", "bool_", "bool", "intc"}
+    for label, dt, sizes, vals in samples:
+        key = f"{h.key}:{label}"
+        res.ob(key)
+        it = Interp(repo, load_classes(repo), primary=FM)
+        it.obj_classes["Formatter"] = FM
+        it.overrides["np.int32"] = "<class 'numpy.int32'>"
+        it.overrides["np.bool"] = "<class 'numpy.bool'>"
+        it.overrides["np.bool_"] = "<class 'numpy.bool'>"
+        it.overrides["np.allclose"] = _PyCall(lambda a, b, rtol=1e-05, atol=1e-08: all(abs(x - (b if not isinstance(b, _Arr) else 0)) <= atol + rtol * abs(b) for x in (a.flat if isinstance(a, _Arr) else [a])))
+        it.overrides["np.all"] = _PyCall(lambda a: all(a.flat) if isinstance(a, _Arr) else bool(a))
+        fmt = Node("Formatter", scalar_type="float64", real_type="float64", __call__=_PyCall(lambda a: a.f["name"]))
+        decl = Node("ArrayDecl", symbol=Node("Symbol", name="t", dtype=dt), sizes=tuple(sizes), values=None if vals is None else _Arr(vals), const=False, dtype=dt)
+        try:
+            text = it.call_f(h, [fmt, decl])
+        except Raised as e:
+            res.fail(key, f"numba ArrayDecl handler raises ({e.what}) for `{label}`", m.line(h.node))
+            continue
+        try:
+            tree = ast.parse(str(text))
+        except SyntaxError:
+            res.fail(key, f"`{label}`: the emitted declaration `{str(text).strip()[:90]}` is not valid Python", m.line(dn.node if "<class" in str(text) else h.node), props=("C18", "C16"))
+            continue
+        st = tree.body[0] if tree.body else None
+        if not (isinstance(st, ast.Assign) and isinstance(st.value, ast.Call)):
+            res.fail(key, f"`{label}`: `{str(text).strip()[:80]}` is not `name = np.<ctor>(...)`", m.line(h.node))
+            continue
+        call = st.value
+        ctor = (call_name(call) or "")
+        dkw = [k.value for k in call.keywords if k.arg == "dtype"]
+        if not dkw or not (isinstance(dkw[0], ast.Attribute) and dkw[0].attr in valid_dtypes):
+            res.fail(key, f"`{label}`: dtype `{ast.unparse(dkw[0]) if dkw else 'missing'}` is not a NumPy dtype name", m.line(dn.node), props=("C18",))
+        want = None if vals is None else _Arr(vals).flat
+        if vals is None:
+            if ctor not in ("np.empty", "np.zeros"):
+                res.fail(key, f"`{label}`: an array without values is declared by `{ctor}`", m.line(h.node))
+            continue
+        lits = []
+        lit_ok = True
+        if ctor == "np.full":
+            try:
+                fill = ast.literal_eval(call.args[1])
+            except Exception:
+                fill = None
+                lit_ok = False
+            if isinstance(fill, list) or fill is None:
+                lit_ok = False
+            lits = [fill] * len(want) if lit_ok else []
+            shape_ok = ast.unparse(call.args[0]).replace(" ", "") in (str(tuple(sizes)).replace(" ", ""), str(list(sizes)).replace(" ", ""))
+            if not lit_ok:
+                res.fail(key, f"`{label}`: np.full is given the fill value `{ast.unparse(call.args[1])[:40]}`, not a scalar literal (a printed sub-array keeps 8 digits and "
+                         "is rejected by numba)", m.line(h.node))
+                continue
+            if not shape_ok:
+                res.fail(key, f"`{label}`: np.full extent `{ast.unparse(call.args[0])}` is not the declared {tuple(sizes)}", m.line(h.node))
+            if len(set(want)) == 1 and len(want) <= 1 or len(set(want)) == 1:
+                want = [want[0]] * len(lits)
+        elif ctor == "np.array":
+            try:
+                nested = ast.literal_eval(call.args[0])
+            except Exception:
+                nested = None
+            lits = _Arr(nested).flat if isinstance(nested, list) else []
+        else:
+            res.fail(key, f"`{label}`: unexpected constructor `{ctor}`", m.line(h.node))
+            continue
+        if len(lits) != len(want) or any(a != b for a, b in zip(lits, want)):
+            bad = next(((a, b) for a, b in zip(lits, want) if a != b), (None, None))
+            res.fail(key, f"`{label}`: the declaration `{str(text).strip()[:70]}` reads back as {lits[:4]}..., declared values {want[:4]}... "
+                     f"(first difference {bad[0]!r} vs {bad[1]!r}): table entries are not reproduced exactly", m.line(h.node))
